@@ -108,7 +108,32 @@ class SigmaCollection:
         )
 
         # Sort rules by reference order
-        self.rules = list(sorted(self.rules))
+        self.rules = self._sort_by_references(self.rules)
+
+    @staticmethod
+    def _sort_by_references(
+        rules: list[SigmaRule | SigmaCorrelationRule],
+    ) -> list[SigmaRule | SigmaCorrelationRule]:
+        """
+        Order rules such that every rule comes after all rules it references (directly or
+        indirectly). Rules keep their relative order otherwise. "Is referenced by" is only a partial
+        order, so sorting with it as comparison doesn't guarantee this.
+        """
+        ordered: list[SigmaRule | SigmaCorrelationRule] = []
+        visited: set[int] = set()
+
+        def visit(rule: SigmaRule | SigmaCorrelationRule) -> None:
+            if id(rule) in visited:
+                return
+            visited.add(id(rule))
+            if isinstance(rule, SigmaCorrelationRule):
+                for rule_ref in rule.referenced_rules:
+                    visit(rule_ref.rule)
+            ordered.append(rule)
+
+        for rule in rules:
+            visit(rule)
+        return ordered
 
     @classmethod
     def from_dicts(
